@@ -109,6 +109,11 @@ func (store *Store) CreatePreamble() error {
 	store.mut.Lock()
 	store.mut.Unlock()
 
+	// Skip operation if ReadWriter is not defined (no data directory).
+	if store.rw == nil {
+		return nil
+	}
+
 	// Get current state.
 	state := internal.FilterExpiredKeys(store.clock.Now(), store.getStateFunc())
 	o, err := json.Marshal(state)
